@@ -20,7 +20,9 @@ class DualAgg(verif.aggregator.Aggregator):
 
     def __call__(self, array, axis=None):
         if isinstance(array, sym.SArr):
-            return sym.fn_atom("Agg", array, (axis,))
+            if axis is not None and len(array.axes) > 1:
+                return sym.along_axis(array, axis, lambda sub: sym.fn_atom("Agg", sub, ()))
+            return sym.fn_atom("Agg", array, ())
         return self.real(array, axis=axis)
 
 
